@@ -79,6 +79,12 @@ func unmarshalBitfield(b []byte) (*bitset.BitSet, error) {
 	if err := bitfield.UnmarshalBinary(b); err != nil {
 		return nil, err
 	}
+	// The last word may carry bits beyond the announced length. BitSet reports
+	// them as set although they are outside Len(), and callers index per-piece
+	// state with every set bit.
+	if i, ok := bitfield.NextSet(bitfield.Len()); ok {
+		return nil, fmt.Errorf("bitfield: bit %d set beyond the announced length %d", i, bitfield.Len())
+	}
 	return bitfield, nil
 }
 
